@@ -9,6 +9,7 @@ import (
 	"go/token"
 	"go/types"
 	"math/big"
+	"os"
 	"strconv"
 	"strings"
 	"sync"
@@ -51,10 +52,10 @@ type Finding struct {
 }
 
 type AccessEvent struct {
-	Obj   *Object
-	Path  string
-	Write bool
-	Sync  string // "", "once-begin", "once-end", "once-wait" ...
+	Obj    *Object
+	Path   string
+	Write  bool
+	Sync   string // "", "once-begin", "once-end", "once-wait" ...
 	SyncID int
 	Thread int
 }
@@ -80,39 +81,41 @@ type Exec struct {
 	steps   int
 	depth   int
 
-	checkPanics bool
-	findings    []Finding
-	nObl        int // assertion obligations met
-	nDischarged int
-	nInconcl    int
-	nReach      int
-	nPanicObl   int
-	reachLabels map[string]bool
-	events      []AccessEvent
-	logEvents   bool
-	thread      int
-	writes      map[string]bool // global-reachable locations written after init
-	externs     map[string]*Object
-	onceN       int
-	readerCalls int
-	predict     map[string]string
-	lazies      []*Object
-	tokenVars   []*Term
-	observed    []Observed
-	cegarRounds int
-	pendingExclude []ExcludeCond
-	havoc    bool
-	sched    *scheduler
+	checkPanics      bool
+	findings         []Finding
+	nObl             int // assertion obligations met
+	nDischarged      int
+	nInconcl         int
+	nReach           int
+	nPanicObl        int
+	reachLabels      map[string]bool
+	events           []AccessEvent
+	logEvents        bool
+	thread           int
+	writes           map[string]bool // global-reachable locations written after init
+	externs          map[string]*Object
+	onceN            int
+	readerCalls      int
+	predict          map[string]string
+	lazies           []*Object
+	tokenVars        []*Term
+	observed         []Observed
+	cegarRounds      int
+	pendingExclude   []ExcludeCond
+	havoc            bool
+	sched            *scheduler
 	fileN, fileBytes int
-	mutexes  map[string]*mutexState
-	builders map[string]Value
-	usedNondet bool
-	env      map[string]*big.Int
-	envMemo  map[int]*Term
-	nTrivial    int
-	nPanicTriv  int
-	callLog     []string
-	funcsSeen   map[string]bool
+	mutexes          map[string]*mutexState
+	builders         map[string]Value
+	usedNondet       bool
+	goldenIdx        []*Term // word-index terms handed to verifGolden (reference side), for witness diversification
+	goldenIdxLang    int
+	env              map[string]*big.Int
+	envMemo          map[int]*Term
+	nTrivial         int
+	nPanicTriv       int
+	callLog          []string
+	funcsSeen        map[string]bool
 }
 
 type frame struct {
@@ -177,7 +180,6 @@ func newFrame(fn *ssa.Function) *frame {
 }
 
 func (fr *frame) set(v ssa.Value, val Value) { fr.locals[fr.info.index[v]] = val }
-
 
 const maxSteps = 20_000_000
 const maxBlockVisits = 200000
@@ -314,6 +316,9 @@ func (x *Exec) branch(c *Term) bool {
 	}
 	if st == "unknown" || sf == "unknown" {
 		x.note("feasibility unknown at a branch (kept both sides)")
+	}
+	if os.Getenv("VERIF_DEBUG_BRANCH") != "" {
+		fmt.Fprintf(os.Stderr, "branch %s : true=%s false=%s pc=%d havoc=%v\n", c.String(), st, sf, len(x.pc), x.havoc)
 	}
 	tOK, fOK := st != "unsat", sf != "unsat"
 	if !tOK && !fOK {
@@ -2106,7 +2111,6 @@ func (x *Exec) builtinAppend(dst SliceV, srcv Value, c *ssa.CallCommon) Value {
 	return SliceV{Obj: o, Off: BVi(0, 64), Len: n, Cap: n}
 }
 
-
 // strOrder lifts an ordering comparison between a table-lifted token and a concrete string
 // (or two concrete strings) over the table.
 func (x *Exec) strOrder(op token.Token, a, b Value) (*Term, bool) {
@@ -2175,7 +2179,6 @@ func (x *Exec) strOrder(op token.Token, a, b Value) (*Term, bool) {
 	}
 	return nil, false
 }
-
 
 // stringByteAt: byte of a constant string at a (possibly symbolic) in-range index, as a piecewise table.
 func (x *Exec) stringByteAt(b string, idx *Term) *Term {
